@@ -13,7 +13,7 @@ META = {
                   'xrspatial.proximity._process (closure _process_dask)', 'xrspatial.utils.get_dataarray_resolution'],
     'bounds': {'quick': '3x4 raster with non-square cells (dx=1, dy=2): every chunk grid (4 x 8 = 32) x every position of one symbolic cell (target iff non-zero finite, decided by the '
                         'solver; all other cells 0) x max_distance in {1, 2}; unbounded max_distance (single-block fallback) for every grid; 2x3 raster with all cells symbolic for every grid '
-                        '(8) and max_distance 1; proximity, allocation and direction compared cell by cell with the NumPy-backed call',
+                        '(8) and max_distance 1 (float64; int32 for two grids); proximity, allocation and direction compared cell by cell with the NumPy-backed call',
                'thorough': 'two symbolic cells (all 66 pairs) on 3x4 for every grid, MANHATTAN, descending coordinates, max_distance 0.5 and 3'},
     'stubs': ['dask.array = sx.symda contract shim (map_overlap with per-axis depth, NaN boundary, minimum-chunk-size merging ported from dask; validated against real dask by replay)'],
     'outside': ['dask schedulers / worker counts', 'halo larger than the raster extent (dask limitation, excluded by the property)', 'rasters larger than the bound'],
